@@ -59,6 +59,14 @@ fn main() {
 			jrsim::proc::cleanup_process_scratch();
 			std::process::exit(code);
 		}
+		"explore" => {
+			let tier = if args.get(3).map(String::as_str) == Some("thorough") { Tier::Thorough } else { Tier::Quick };
+			let lo: u64 = args.get(4).and_then(|s| s.parse().ok()).unwrap_or(0);
+			let hi: u64 = args.get(5).and_then(|s| s.parse().ok()).unwrap_or(0);
+			let code = checks::explore(&args[2], tier, seed, workers, lo, hi);
+			jrsim::proc::cleanup_process_scratch();
+			std::process::exit(code);
+		}
 		"run-plan" => {
 			let code = checks::run_plan(&args[2], &args[3]);
 			jrsim::proc::cleanup_process_scratch();
